@@ -11,6 +11,8 @@ claimed = {
              note="Trusts the generator, solvers, append/slice model, interface contract of ProtocolPipe.RecvMsg; struct invariant 1<=ttl<=255 is proved at every Unlock of the package."),
  "C11": dict(design="8 C11", text="Proof (partial): for every field annotated guarded_by/immutable/atomic in the contract files, every access in every function of core, transports and protocols is proved to happen with the lock held (data-race freedom for declared fields); lock order levels and no blocking operation under a lock. 27 genuine unsynchronised accesses of the pinned tree are listed as known findings.",
              note="Foreign-guarded fields (guarded by a lock in another object) are checked against any held lock of that type (ownership assumption); fields marked racy are outside; linearizability and scheduler-dependent deadlocks are outside."),
+ "C17": dict(design="8 C17", text="Proof: affine ownership of *Message checked on every path of every function in core, transports and protocols: no use, release, channel send, goroutine hand-off or store of a message the code does not own; Send-like methods leave the message with the caller (own>=1, Body unchanged) on every error return; Recv-like methods return an owned message; loop iterations do not consume references they did not acquire. Interface Send contracts are proved for every implementation (subtype obligations).",
+             note="NewMessage's contract is trusted (sync.Pool); values loaded from structures are borrowed (double release through two loads of one field is not seen); dropping a message without Free is allowed; REQ/SURVEYOR body-intact-on-error clauses are not claimed (listed in evidence)."),
  "C12": dict(design="8 C12", text="Proof: on every path of every function in core, transports and protocols each mutex is released exactly once before return (path-sensitive, defer-aware), never re-locked while held, never unlocked while free, cond.Wait only with its lock. Two defects found by this check were repaired (fix: commits).",
              note="Lock identity is the address term of the mutex field; calls to functions without a `holds/acquires/releases` contract are assumed lock-neutral (which is exactly what this sweep proves for each of them)."),
 }
